@@ -10,6 +10,9 @@ C20 — code generation is deterministic: independence of hash iteration order.
   every use of every `HashMap`/`HashSet`-typed binding with file and line;
   `all_ops_lookup_only` (there, by `decide` over that finite table) says that each use is in the
   lookup-only vocabulary or is the single reviewed exception.
+* `order_safe_program_order_independent`: the same for the larger class `Prog.OrderSafe`, where iteration is
+  allowed when its continuation is invariant under permutations of the entries (collect-then-sort, count, sum);
+  `Prog.LookupOnly.orderSafe` shows the class contains the lookup-only programs.
 * The exception (`tyinfer::infer_types` iterates `self.nonterminals.keys()`):
   `infer_order_independent_partial`.
 -/
@@ -150,6 +153,69 @@ example : ∃ (o₁ o₂ : OrderParam Nat Nat) (prog : Prog Nat Nat (List Nat)),
   ⟨⟨fun _ _ => 0, id⟩, ⟨fun l _ => l.length, id⟩,
     .insert 1 1 fun _ => .insert 2 2 fun _ => .iter fun l => .ret (l.map (·.1)),
     fun _ => List.Perm.refl _, fun _ => List.Perm.refl _, by decide⟩
+
+/-! ### order-safe programs: iteration whose consumer is permutation-invariant -/
+
+/-- the program may look at the internal order, but only through continuations that give the same
+    program for any two permutations of the entries (e.g. `keys().collect()` followed by `sort()`,
+    `iter().count()`, `values().sum()`, building a `BTreeMap` from the entries) -/
+def Prog.OrderSafe : Prog K V R → Prop
+  | .ret _ => True
+  | .insert _ _ next => ∀ a, (next a).OrderSafe
+  | .get _ next => ∀ a, (next a).OrderSafe
+  | .remove _ next => ∀ a, (next a).OrderSafe
+  | .len next => ∀ n, (next n).OrderSafe
+  | .clear next => next.OrderSafe
+  | .iter next => (∀ l l' : List (K × V), l.Perm l' → next l = next l') ∧ ∀ l, (next l).OrderSafe
+
+omit [DecidableEq K] in
+theorem Prog.LookupOnly.orderSafe (prog : Prog K V R) (h : prog.LookupOnly) : prog.OrderSafe := by
+  induction prog with
+  | ret r => trivial
+  | insert k v next ih => exact fun a => ih a (h a)
+  | get k next ih => exact fun a => ih a (h a)
+  | remove k next ih => exact fun a => ih a (h a)
+  | len next ih => exact fun a => ih a (h a)
+  | clear next ih => exact ih h
+  | iter next _ => exact absurd h (by simp [Prog.LookupOnly])
+
+theorem order_safe_program_order_independent (o₁ o₂ : OrderParam K V) (h₁ : o₁.Valid) (h₂ : o₂.Valid)
+    (prog : Prog K V R) (hl : prog.OrderSafe) (m₁ m₂ : List (K × V)) (h : Sim m₁ m₂) :
+    (prog.run o₁ m₁).1 = (prog.run o₂ m₂).1 ∧ Sim (prog.run o₁ m₁).2 (prog.run o₂ m₂).2 := by
+  induction prog generalizing m₁ m₂ with
+  | ret r => exact ⟨rfl, h⟩
+  | insert k v next ih =>
+    obtain ⟨e, hs⟩ := insert_sim o₁ o₂ h₁ h₂ h k v
+    simp only [Prog.run]
+    rw [← e]
+    exact ih _ (hl _) _ _ hs
+  | get k next ih =>
+    simp only [Prog.run]
+    rw [← lookup_sim h k]
+    exact ih _ (hl _) _ _ h
+  | remove k next ih =>
+    obtain ⟨e, hs⟩ := remove_sim o₁ o₂ h₁ h₂ h k
+    simp only [Prog.run]
+    rw [← e]
+    exact ih _ (hl _) _ _ hs
+  | len next ih =>
+    simp only [Prog.run]
+    rw [← h.1.length_eq]
+    exact ih _ (hl _) _ _ h
+  | clear next ih =>
+    simp only [Prog.run]
+    exact ih hl _ _ ⟨List.Perm.refl _, by simp⟩
+  | iter next ih =>
+    simp only [Prog.run]
+    rw [← hl.1 m₁ m₂ h.1]
+    exact ih _ (hl.2 _) _ _ h
+
+/-- non-vacuity: a program that iterates and only counts is order-safe but not lookup-only -/
+example : (Prog.insert 1 1 fun _ => Prog.iter fun l => Prog.ret l.length : Prog Nat Nat Nat).OrderSafe ∧
+    ¬ (Prog.insert 1 1 fun _ => Prog.iter fun l => Prog.ret l.length : Prog Nat Nat Nat).LookupOnly := by
+  refine ⟨fun _ => ⟨fun l l' hp => by simp only [hp.length_eq], fun _ => trivial⟩, fun h => ?_⟩
+  exact h none
+
 
 /-! ### the exception: `infer_types` visits the nonterminals in hash order -/
 
